@@ -1725,6 +1725,13 @@ func Program(rt *rapid.T, p Profile) (*oracle.Program, *Meta) {
 		top.WriteString("func twice(a int) int {\n\treturn a * 2\n}\n\nfunc viaTwice(a int) int {\n\treturn twice(a) + 1\n}\n\nfunc applyTwice(twice func(int) int, a int) int {\n\treturn twice(a) + viaTwice(a)\n}\n\n")
 		hookCall = "fmt.Println(\"hook\", viaHook(2), hook(3))\n\thook = hookB\n\tfmt.Println(\"hook\", viaHook(2), hook(3))\n\tfor hi := 0; hi < 3; hi++ {\n\t\tif hi == 1 {\n\t\t\thook = hookA\n\t\t}\n\t\tfmt.Println(\"hook\", hi, hook(hi), viaHook(hi))\n\t}\n\tfmt.Println(\"shadowfn\", applyTwice(hookB, 3), applyTwice(twice, 4), viaTwice(5))"
 	}
+	// a struct type whose fields are of named number types declared after it: the fields start as the zero value of
+	// those types and keep their arithmetic
+	if rx.Chance(rt, "latetype", 1, 3) {
+		g.meta.feat("latetype")
+		top.WriteString("type Holder struct {\n\tC Degree\n\tK Small\n}\n\ntype Degree float64\n\ntype Small uint8\n\nfunc holderDemo(a int) string {\n\th := &Holder{}\n\th.C += 0.5\n\th.K += 255\n\th.K += Small(a)\n\treturn fmt.Sprint(h.C+0.5, h.K, h.K/2)\n}\n\n")
+		hookCall += "\n\tfmt.Println(\"latetype\", holderDemo(2))"
+	}
 	// init and Main
 	var mainBody strings.Builder
 	g.sb = &mainBody
